@@ -152,7 +152,22 @@ def run(ctx):
                         bad_range.append({'id': pid, 'program': progs[pid].source(), 'level': O, 'function': f['name'],
                                           'why': 'branch %s %s at line %d of %s has displacement %d (inline assembly counted with its declared size)' % (m, t, i, f['name'], d)})
                         break
-    ctx.cov['correspondence']['corr-S displacement'] = {'branches_checked': checked, 'out_of_range': len(bad_range), 'branches_checked_in_compiled_programs': pchecked}
+    # the fixed enumeration of spans around the limit (tools/lib/gen_c.py long_programs), displacements recomputed
+    # with the sizes the ASSEMBLER gives (not the compiler's own nb_bytes)
+    from lib.gen_c import long_programs
+    from lib.pipeline import real_size_range_problems
+    lp = long_programs()
+    lcomp = compile_variants({k: p.source() for k, p in lp.items()}, {'O1': ['-O1'], 'O0': ['-O0']})
+    rp, rchecked = real_size_range_problems(lcomp)
+    for x in rp:
+        pid = x['id'].split('@')[0]
+        bad_range.append({'id': pid, 'program': lp[pid].source(), 'level': x['id'].split('@')[1], 'function': x['function'], 'why': x['why']})
+    rp2, rchecked2 = real_size_range_problems(comp)
+    for x in rp2:
+        pid = x['id'].split('@')[0]
+        bad_range.append({'id': pid, 'program': progs[pid].source(), 'level': x['id'].split('@')[1], 'function': x['function'], 'why': x['why']})
+    ctx.cov['correspondence']['corr-S displacement'] = {'branches_checked': checked, 'out_of_range': len(bad_range), 'branches_checked_in_compiled_programs': pchecked,
+                                                        'branches_checked_with_assembled_sizes': rchecked + rchecked2, 'long_span_programs': len(lp)}
     # flow: original vs repaired, all N/Z/C
     lay = flow_layout()
     text = []
